@@ -351,6 +351,11 @@ def gen_options(rng):
 # of the output (`module/`, `lists/`, `page/`, the default output directory `doc`).
 PAGE_DIR_NAMES = ["sub", "other", "deeper", "examples", "dev", "module", "lists", "proc", "page", "doc", "media", "src"]
 PAGE_LEAF_NAMES = ["first", "leaf", "last", "notes"]
+# File names of static pages are the user's: release notes and versioned documents have dots in their stem
+# (`release-1.2.md`, `v2.0-notes.md`), directories too (`v1.0/`).  Whatever FORD calls the page it writes for such a
+# file, the links it writes itself (side-bar tree, breadcrumbs, navigation bar, search index) have to name that file.
+PAGE_DOTTED_LEAF_NAMES = ["release-1.2", "v2.0-notes", "changes.2024", "a.b.c", "notes.final", "x..y"]
+PAGE_DOTTED_DIR_NAMES = ["v1.0", "rel.2"]
 
 
 def gen_pages(rng):
@@ -362,11 +367,17 @@ def gen_pages(rng):
         # a name seen before (elsewhere in the tree) with probability 0.4, else any name of the pool
         cand = [n for n in (used if used and rng.random() < 0.4 else PAGE_DIR_NAMES) if n not in avoid]
         n = rng.choice(cand or [x for x in PAGE_DIR_NAMES if x not in avoid])
+        if dotted and rng.random() < 0.25:
+            n = rng.choice([x for x in PAGE_DOTTED_DIR_NAMES if x not in avoid])
         used.append(n)
         return n
 
     def leaf():
+        if dotted and rng.random() < 0.6:
+            return rng.choice(PAGE_DOTTED_LEAF_NAMES)
         return rng.choice(PAGE_LEAF_NAMES)
+
+    dotted = rng.random() < 0.35
 
     pages = {"index.md": {"title": "Notes"}}
     if rng.random() < 0.7:
@@ -456,7 +467,10 @@ def page_asset_links(P, rel):
         out.append((f"[file]({f})", "page-dir-file"))
     if pa["page_links"]:
         for other in sorted(P["pages"]):
-            if other != rel:
+            # a hand-written link names the output file as the *user* expects it; for a page file with a dot in its stem
+            # that name is FORD's decision (C17-dotted-stem-truncated), so no hand-written link is generated to such a
+            # page - the links FORD writes itself (side-bar tree, breadcrumbs, search index) are the ones under test
+            if other != rel and "." not in other.rsplit("/", 1)[-1][:-3]:
                 out.append((f"[page]({posixpath.relpath(other[:-3] + '.html', d or '.')})", "page-relative"))
     return out
 
@@ -551,6 +565,8 @@ def md_link_pool(P):
     if P["pages"]:
         for rel in P["pages"]:
             html = rel[:-3] + ".html"
+            if "." in rel.rsplit("/", 1)[-1][:-3]:
+                continue    # hand-written name of a page whose name is FORD's decision, see page_asset_links
             pool.append((f"[pg](|page|/{html})", "alias-page"))
     if P["media"]:
         pool.append(("![pic](|media|/pic.png)", "alias-media"))
